@@ -36,11 +36,18 @@ class AbsCRS:
         return "<AbsCRS>"
 
 
+EMPTY_MODE = ["never"]  # which stand-in shapes report is_empty: "never" | "derived" (every result of an operation) | "all"
+
+
 class GhostShape:
     """stand-in for a shapely geometry: every operation returns a record of (operation, operands)"""
 
     def __init__(self, tag, args=()):
         self.tag, self.args = tag, args
+
+    @property
+    def is_empty(self):
+        return {"never": False, "derived": bool(self.args), "all": True}[EMPTY_MODE[0]]
 
     def __getattr__(self, name):
         if name.startswith("__") and name not in ("__and__", "__or__", "__xor__", "__sub__"):
@@ -75,6 +82,10 @@ class GhostGeometry:
 
     def __init__(self, geom=None, crs=None):
         self.geom, self.crs = geom, crs
+
+    @property
+    def is_empty(self):
+        return self.geom.is_empty
 
     intersection = None  # set below (the real, shadow-loaded wrapped method)
 
@@ -189,13 +200,17 @@ def _kinds_n(n):
     return list(itertools.product(("none", "crs"), repeat=n))
 
 
-def _collection_body(kinds, fname, classes):
+def _collection_body(kinds, fname, classes, empty_mode="never"):
     gs = [_operand(f"g{i}", k, c) for i, (k, c) in enumerate(zip(kinds, classes))]
 
     def run(m, RealGeometry):
         return _outcome(lambda: getattr(m, fname)(list(gs)))
 
-    out = _with_ghosts(run)
+    EMPTY_MODE[0] = empty_mode
+    try:
+        out = _with_ghosts(run)
+    finally:
+        EMPTY_MODE[0] = "never"
     mismatch = Or(*[Not(_same(gs[0].crs, g.crs)) for g in gs[1:]]) if len(gs) > 1 else False
     if out[0] == "ValueError":
         claim(mismatch, f"{fname}: error only when some operand's CRS differs from the first's")
@@ -214,21 +229,34 @@ def _collection_body(kinds, fname, classes):
         acc = gs[0].geom
         for g in gs[1:]:
             claim(True, "fold")
+        # the left fold of shapely's intersection over the raw shapes; once a prefix of the fold is EMPTY the rest of the
+        # fold cannot change it, so that prefix itself is an equally good answer (the CRS check above applies regardless)
+        def is_fold(t, upto):
+            for g in reversed(gs[1:upto]):
+                if not (isinstance(t, GhostShape) and t.tag == "intersection" and t.args[1] is g.geom):
+                    return False
+                t = t.args[0]
+            return t is gs[0].geom
+
         t = res.geom
-        ok = True
-        for g in reversed(gs[1:]):
-            ok = ok and isinstance(t, GhostShape) and t.tag == "intersection" and t.args[1] is g.geom
-            t = t.args[0] if ok else t
-        claim(ok and t is gs[0].geom, "unary_intersection: left fold of shapely's intersection over the raw shapes")
+        full = is_fold(t, len(gs))
+        prefix_ok = False
+        if empty_mode != "never":
+            EMPTY_MODE[0] = empty_mode
+            try:
+                prefix_ok = any(is_fold(t, k) and t.is_empty for k in range(1, len(gs)))
+            finally:
+                EMPTY_MODE[0] = "never"
+        claim(full or prefix_ok, "unary_intersection: left fold of shapely's intersection over the raw shapes (or an empty prefix of it)")
 
 
 for _fname in ("common_crs", "multigeom", "unary_union", "unary_intersection"):
     lemma(
         f"crsguard.{_fname}",
         ["C01"],
-        inputs=[dict(kinds=k, fname=_fname, classes=Tup(*[Int()] * n)) for n in (1, 2, 3) for k in _kinds_n(n)],
+        inputs=[dict(kinds=k, fname=_fname, classes=Tup(*[Int()] * n), empty_mode=em) for n in (1, 2, 3) for k in _kinds_n(n) for em in (("never", "derived", "all") if _fname == "unary_intersection" else ("never",))],
         body=_collection_body,
-        note="collections of 1-3 operands, every combination of CRS tags (none / symbolic class per operand)",
+        note="collections of 1-3 operands, every combination of CRS tags (none / symbolic class per operand); unary_intersection also with intermediate results / all shapes reporting is_empty (an emptiness shortcut must not skip the CRS check)",
     )
 
 
